@@ -809,11 +809,24 @@ func (n *AlertNode) newAlertState(tags models.Tags) *alertState {
 		n.et.tm.AlertService.AddInhibitor(inhibitor)
 	}
 	return &alertState{
-		history:    make([]alert.Level, n.a.History),
-		n:          n,
-		buffer:     new(edge.BatchBuffer),
-		inhibitors: inhibitors,
+		history:     make([]alert.Level, n.a.History),
+		n:           n,
+		buffer:      new(edge.BatchBuffer),
+		inhibitors:  inhibitors,
+		levels:      copyResetExpressions(n.levels),
+		levelResets: copyResetExpressions(n.levelResets),
 	}
+}
+
+// copyResetExpressions returns copies of the expressions with their own, reset state.
+func copyResetExpressions(exprs []stateful.Expression) []stateful.Expression {
+	copies := make([]stateful.Expression, len(exprs))
+	for i, se := range exprs {
+		if se != nil {
+			copies[i] = se.CopyReset()
+		}
+	}
+	return copies
 }
 
 func (n *AlertNode) restoreEvent(id string) (alert.Level, time.Time) {
@@ -918,29 +931,31 @@ func (n *AlertNode) handleEvent(event alert.Event) {
 	}
 }
 
-func (n *AlertNode) determineLevel(p edge.FieldsTagsTimeGetter, currentLevel alert.Level) alert.Level {
-	if higherLevel, found := n.findFirstMatchLevel(alert.Critical, currentLevel-1, p); found {
+func (a *alertState) determineLevel(p edge.FieldsTagsTimeGetter, currentLevel alert.Level) alert.Level {
+	n := a.n
+	if higherLevel, found := a.findFirstMatchLevel(alert.Critical, currentLevel-1, p); found {
 		return higherLevel
 	}
-	if rse := n.levelResets[currentLevel]; rse != nil {
+	if rse := a.levelResets[currentLevel]; rse != nil {
 		if pass, err := EvalPredicate(rse, n.lrScopePools[currentLevel], p); err != nil {
 			n.diag.Error("error evaluating reset expression for current level", err, keyvalue.KV("level", currentLevel.String()))
 		} else if !pass {
 			return currentLevel
 		}
 	}
-	if newLevel, found := n.findFirstMatchLevel(currentLevel, alert.OK, p); found {
+	if newLevel, found := a.findFirstMatchLevel(currentLevel, alert.OK, p); found {
 		return newLevel
 	}
 	return alert.OK
 }
 
-func (n *AlertNode) findFirstMatchLevel(start alert.Level, stop alert.Level, p edge.FieldsTagsTimeGetter) (alert.Level, bool) {
+func (a *alertState) findFirstMatchLevel(start alert.Level, stop alert.Level, p edge.FieldsTagsTimeGetter) (alert.Level, bool) {
+	n := a.n
 	if stop < alert.OK {
 		stop = alert.OK
 	}
 	for l := start; l > stop; l-- {
-		se := n.levels[l]
+		se := a.levels[l]
 		if se == nil {
 			continue
 		}
@@ -995,6 +1010,11 @@ func (n *AlertNode) event(
 type alertState struct {
 	n *AlertNode
 
+	// Per group copies of the level expressions, so that stateful functions
+	// (count(), sigma(), ...) used in a level condition keep their state per group.
+	levels      []stateful.Expression
+	levelResets []stateful.Expression
+
 	buffer *edge.BatchBuffer
 
 	history []alert.Level
@@ -1042,7 +1062,7 @@ func (a *alertState) BufferedBatch(b edge.BufferedBatchMessage) (edge.Message, e
 
 	currentLevel := a.currentLevel()
 	for _, bp := range b.Points() {
-		l := a.n.determineLevel(bp, currentLevel)
+		l := a.determineLevel(bp, currentLevel)
 		if l < lowestLevel {
 			lowestLevel = l
 		}
@@ -1123,7 +1143,7 @@ func (a *alertState) Point(p edge.PointMessage) (edge.Message, error) {
 	if err != nil {
 		return nil, err
 	}
-	l := a.n.determineLevel(p, a.currentLevel())
+	l := a.determineLevel(p, a.currentLevel())
 
 	a.addEvent(p.Time(), l)
 
